@@ -13,10 +13,12 @@ import (
 // sync.Mutex.
 type Mutex struct {
 	real sync.Mutex
+	sema int32 // address used for race annotations only
 	held atomic.Int32
 	w    atomic.Pointer[chan struct{}]
 }
 
+//go:norace
 func waitChan(w *atomic.Pointer[chan struct{}]) chan struct{} {
 	for {
 		if p := w.Load(); p != nil {
@@ -29,12 +31,14 @@ func waitChan(w *atomic.Pointer[chan struct{}]) chan struct{} {
 	}
 }
 
+//go:norace
 func broadcast(w *atomic.Pointer[chan struct{}]) {
 	if p := w.Swap(nil); p != nil {
 		close(*p)
 	}
 }
 
+//go:norace
 func (m *Mutex) Lock() {
 	s := S.Load()
 	if s == nil {
@@ -42,9 +46,11 @@ func (m *Mutex) Lock() {
 		return
 	}
 	s.yield(KLock)
+	raceDisable()
 	for {
 		if m.held.CompareAndSwap(0, 1) {
-			raceAcquire(&m.held)
+			raceEnable()
+			raceAcquire(&m.sema)
 			return
 		}
 		c := waitChan(&m.w)
@@ -52,30 +58,38 @@ func (m *Mutex) Lock() {
 			continue
 		}
 		<-c
+		raceEnable()
 		s.yield(KLock)
+		raceDisable()
 	}
 }
 
+//go:norace
 func (m *Mutex) TryLock() bool {
 	s := S.Load()
 	if s == nil {
 		return m.real.TryLock()
 	}
 	s.yield(KLock)
-	if m.held.CompareAndSwap(0, 1) {
-		raceAcquire(&m.held)
-		return true
+	raceDisable()
+	ok := m.held.CompareAndSwap(0, 1)
+	raceEnable()
+	if ok {
+		raceAcquire(&m.sema)
 	}
-	return false
+	return ok
 }
 
+//go:norace
 func (m *Mutex) Unlock() {
 	s := S.Load()
 	if s == nil {
 		m.real.Unlock()
 		return
 	}
-	raceRelease(&m.held)
+	raceRelease(&m.sema)
+	raceDisable()
+	defer raceEnable()
 	if !m.held.CompareAndSwap(1, 0) {
 		panic("simrt: unlock of unlocked Mutex")
 	}
@@ -95,6 +109,7 @@ type RWMutex struct {
 	wsem    int32
 }
 
+//go:norace
 func (m *RWMutex) RLock() {
 	s := S.Load()
 	if s == nil {
@@ -102,37 +117,47 @@ func (m *RWMutex) RLock() {
 		return
 	}
 	s.yield(KLock)
+	raceDisable()
 	for {
 		m.g.Lock()
 		if !m.writer && m.wwait == 0 {
 			m.readers++
 			m.g.Unlock()
+			raceEnable()
 			raceAcquire(&m.wsem)
 			return
 		}
 		c := waitChan(&m.w)
 		m.g.Unlock()
 		<-c
+		raceEnable()
 		s.yield(KLock)
+		raceDisable()
 	}
 }
 
+//go:norace
 func (m *RWMutex) TryRLock() bool {
 	s := S.Load()
 	if s == nil {
 		return m.real.TryRLock()
 	}
 	s.yield(KLock)
+	raceDisable()
 	m.g.Lock()
-	defer m.g.Unlock()
-	if !m.writer && m.wwait == 0 {
+	ok := !m.writer && m.wwait == 0
+	if ok {
 		m.readers++
-		raceAcquire(&m.wsem)
-		return true
 	}
-	return false
+	m.g.Unlock()
+	raceEnable()
+	if ok {
+		raceAcquire(&m.wsem)
+	}
+	return ok
 }
 
+//go:norace
 func (m *RWMutex) RUnlock() {
 	s := S.Load()
 	if s == nil {
@@ -140,6 +165,8 @@ func (m *RWMutex) RUnlock() {
 		return
 	}
 	raceReleaseMerge(&m.rsem)
+	raceDisable()
+	defer raceEnable()
 	m.g.Lock()
 	m.readers--
 	if m.readers < 0 {
@@ -152,6 +179,7 @@ func (m *RWMutex) RUnlock() {
 	m.g.Unlock()
 }
 
+//go:norace
 func (m *RWMutex) Lock() {
 	s := S.Load()
 	if s == nil {
@@ -159,6 +187,7 @@ func (m *RWMutex) Lock() {
 		return
 	}
 	s.yield(KLock)
+	raceDisable()
 	m.g.Lock()
 	m.wwait++
 	for {
@@ -166,6 +195,7 @@ func (m *RWMutex) Lock() {
 			m.writer = true
 			m.wwait--
 			m.g.Unlock()
+			raceEnable()
 			raceAcquire(&m.rsem)
 			raceAcquire(&m.wsem)
 			return
@@ -173,28 +203,36 @@ func (m *RWMutex) Lock() {
 		c := waitChan(&m.w)
 		m.g.Unlock()
 		<-c
+		raceEnable()
 		s.yield(KLock)
+		raceDisable()
 		m.g.Lock()
 	}
 }
 
+//go:norace
 func (m *RWMutex) TryLock() bool {
 	s := S.Load()
 	if s == nil {
 		return m.real.TryLock()
 	}
 	s.yield(KLock)
+	raceDisable()
 	m.g.Lock()
-	defer m.g.Unlock()
-	if !m.writer && m.readers == 0 {
+	ok := !m.writer && m.readers == 0
+	if ok {
 		m.writer = true
+	}
+	m.g.Unlock()
+	raceEnable()
+	if ok {
 		raceAcquire(&m.rsem)
 		raceAcquire(&m.wsem)
-		return true
 	}
-	return false
+	return ok
 }
 
+//go:norace
 func (m *RWMutex) Unlock() {
 	s := S.Load()
 	if s == nil {
@@ -202,6 +240,8 @@ func (m *RWMutex) Unlock() {
 		return
 	}
 	raceRelease(&m.wsem)
+	raceDisable()
+	defer raceEnable()
 	m.g.Lock()
 	if !m.writer {
 		m.g.Unlock()
@@ -213,6 +253,7 @@ func (m *RWMutex) Unlock() {
 }
 
 // RLocker mirrors sync.RWMutex.RLocker.
+//go:norace
 func (m *RWMutex) RLocker() sync.Locker { return (*rlocker)(m) }
 
 type rlocker RWMutex
@@ -221,6 +262,7 @@ func (r *rlocker) Lock()   { (*RWMutex)(r).RLock() }
 func (r *rlocker) Unlock() { (*RWMutex)(r).RUnlock() }
 
 // State reports (readers, writer held, writers waiting) — for oracles.
+//go:norace
 func (m *RWMutex) State() (int, bool, int) {
 	m.g.Lock()
 	defer m.g.Unlock()
